@@ -20,8 +20,7 @@ type Prop struct {
 // NotApplicable lists properties that are not claimed, with the reason.
 type NA struct{ ID, Reason string }
 
-var NotApplicable = []NA{
-}
+var NotApplicable = []NA{}
 
 var commonAssumptions = []string{
 	"go/packages + go/types + go/ssa (x/tools v0.50.0) faithfully represent the Go semantics of /repo's working tree for GOOS=linux GOARCH=amd64 (thorough tier: also GOARCH=386)",
@@ -148,14 +147,14 @@ var All = []*Prop{
 	},
 	{
 		ID:    "C07",
-		Rules: []*core.Rule{rules.FreshArray, rules.StaleLen, rules.SpareCap, rules.SortBound, rules.LenWritable, rules.OverrideClosure, rules.ElemCount, rules.TruncAgree, rules.RawResize},
+		Rules: []*core.Rule{rules.FreshArray, rules.StaleLen, rules.SpareCap, rules.SortBound, rules.LenWritable, rules.OverrideClosure, rules.ElemCount, rules.TruncAgree, rules.RawResize, rules.DenseView, rules.HostSlice},
 		Explanation: "Clauses decided (necessary conditions, not the behaviour): (1) 'generic vs fast paths inside methods': R-FRESH-ARRAY runs the guard-freshness dataflow over every function that obtains a *arrayObject from checkStdArray*/checkStdArrayObj*: each read of .values (and of an element or sub-slice of a snapshot loaded from it) must be reached only by paths on which no call that may run script (species constructors, callbacks, Proxy traps, valueOf/toString, getters) happened since the check - otherwise the fast path reads a stale dense snapshot where the generic algorithm re-reads through [[Get]]. " +
 			"R-STALELEN is the same dataflow on integers: an index or slice bound into the snapshot that is computed from the toLength(...) result read at the start of the method needs, on every path, either no script-running call since that read or an equality test of the old length against the array's current length/len(values) (otherwise a shrunk array is indexed out of range: a Go panic escaping to the host). R-SORTBOUND: the in-place sort of Go-backed arrays compares every index with the current sortLen() before sortGet/swap (the comparator runs between accesses). " +
 			"(2) 'switching storage strategy / bookkeeping counters': R-SPARECAP also requires every function that removes elements from .values (in-place shrink or nil store) to update objCount, because checkStdArrayObj takes objCount == length == len(values) as proof of density and an over-count lets a holey array pass. R-SPARECAP classifies every store to arrayObject.values (fresh, same, grow-under-cap-check, shrink) and requires each in-place shrink to nil the slots it cuts off, which the grow-into-capacity sites (expand, unshift, splice) rely on. " +
 			"(3) 'defineProperty on length': R-LENWRITABLE - in defineArrayLength every path from the storage's length-setter call to a return reads descr.Writable (ArraySetLength defers writable:false past a blocked truncation, never drops it). " +
 			"(4) every array storage kind (arrayObject, sparseArrayObject, objectGoSlice, objectGoArrayReflect, objectGoSliceReflect, dynamicArray) overrides the complete index-aware method set (R-OVERRIDECLOSURE), so no baseObject string-key implementation is reached for an index key. " +
 			"(5) 'switching storage is never observable / non-configurable tail': R-ELEMCOUNT - a value coming out of _defineOwnProperty (possibly a *valueProperty) that is stored into the element storage of an array object is counted in propValueCount (and objCount) of the object that receives it, also when that is the object the array has just been converted into; objCount grows only under `existing == nil`; the conversions in expand() carry propValueCount over. R-TRUNCAGREE - in both _setLengthInt the range scanned for non-configurable elements is exactly the range cut off (loop boundary operator vs. slice bound / findIdx predicate). " +
-			"R-RAWRESIZE - a built-in that resizes a guarded array in place (assigns .values, setArrayValues, writes .length) does so under lengthProp.writable, and under extensible when it may add elements, or the array comes from checkNewStdArrayObj.",
+			"R-RAWRESIZE - a built-in that resizes a guarded array in place (assigns .values, setArrayValues, writes .length) does so under lengthProp.writable, and under extensible when it may add elements, or the array comes from checkNewStdArrayObj. R-DENSEVIEW: outside the array types, arrayObject.values is indexed, sliced or measured only on an array that came out of a checkStdArray* guard or was created in the function; a bare `o.self.(*arrayObject)` with a home-made condition (seeded: reverse() without the objCount test) treats holes as values. Audited exceptions are re-checked (pop: every element it loads is compared with nil). R-HOSTSLICE: every in-place re-slice of a host-owned Go slice behind objectGoSlice / objectGoSliceReflect (grow within capacity, shrink) is preceded by a zeroing loop over the slots it uncovers or cuts off - the capacity of a host slice holds whatever the Go program left there.",
 		Technique:  "guard-freshness dataflow (forward must-analysis over SSA with inter-procedural summaries and a may-run-script call-graph fact); store classification with dominance/loop-header discharge; must-pass-through on the SSA CFG; method-set override closure",
 		DesignRef:  "DESIGN.md section 4, C07",
 		NotCovered: "index arithmetic inside the fast paths once the length is validated, the sort algorithm (stability, permutation), the arithmetic of ArraySetLength with non-configurable tails, sparse<->dense transition heuristics and the contents they carry over, agreement of each generic algorithm with the specification text",
@@ -199,12 +198,12 @@ var All = []*Prop{
 	},
 	{
 		ID:    "C14",
-		Rules: []*core.Rule{rules.Classifier, rules.Recover, rules.GoError, rules.InterruptSync, rules.UncatchableClose, rules.LockScript, rules.TryError},
+		Rules: []*core.Rule{rules.Classifier, rules.Recover, rules.GoError, rules.InterruptSync, rules.UncatchableClose, rules.LockScript, rules.TryError, rules.ExStack},
 		Explanation: "R-CLASSIFIER: in vm.exceptionFromValue (the single place where a panic payload becomes a script-catchable Exception) no case type accepts an implementer of uncatchableException (go/types assignability over every named type of the package), *Object is matched before Value, the *Object and Value cases store the matched value itself in Exception.val (SSA identity), and unknown payloads yield nil. " +
 			"R-RECOVER: for each of the recover() sites of the module and each caller of tryFunc, on the non-nil branch every exit is dominated by a re-panic of the same value, a call to handleThrow with it, or a successful classification; handleThrow re-panics what exceptionFromValue cannot convert. " +
 			"R-GOERROR: at every bridge for errors returned by host code (reflected native functions, json.Marshaler) NewGoError(err) is dominated by the false edges of err.(*Exception) and isUncatchableException(err), and the *Exception branch re-panics err itself. " +
 			"R-INTERRUPTSYNC / R-UNCATCHABLECLOSE (see C15): the interrupt flag is cleared only by leaveAbrupt/the public API, so it stays raised while the InterruptedError unwinds and no script catch/finally/iterator-return code can run. " +
-			"R-LOCKSCRIPT: capturing the stack of an exception (vm.captureStack, called when an exception is created or thrown) runs no script, so no user getter can run - and throw - in the middle of raising another error. R-TRYERROR: the *Exception returned by vm.try is converted to a Go `error` only inside a boundary function (deferred recover classifying with asUncatchableException); an API that reports errors but catches with a bare vm.try lets an interrupt escape as a Go panic with the interrupt still pending (Runtime.New/Set, ExportTo of an iterable, Object.MarshalJSON did).",
+			"R-LOCKSCRIPT: capturing the stack of an exception (vm.captureStack, called when an exception is created or thrown) runs no script, so no user getter can run - and throw - in the middle of raising another error. R-TRYERROR: the *Exception returned by vm.try is converted to a Go `error` only inside a boundary function (deferred recover classifying with asUncatchableException); an API that reports errors but catches with a bare vm.try lets an interrupt escape as a Go panic with the interrupt still pending (Runtime.New/Set, ExportTo of an iterable, Object.MarshalJSON did). R-EXSTACK: every return of vm.exceptionFromValue that can carry a non-nil *Exception is reached only through the `ex.stack == nil` test that fills in the stack of exceptions created without one.",
 		Technique:  "type-switch assignability over go/types, SSA value identity, must-pass-through on recover handlers with controlling-condition classification",
 		DesignRef:  "DESIGN.md section 4, C14",
 		NotCovered: "stack-trace contents and the position of the top frame, errors.Is/As chains through GoError (value-level), every sequence of frame kinds, StackOverflowError observability through natives that flatten the error into a new one",
@@ -239,11 +238,11 @@ var All = []*Prop{
 	},
 	{
 		ID:    "C13",
-		Rules: []*core.Rule{rules.ExportCycle, rules.ExportCache, rules.WrapperTxn, rules.SpareCap, rules.ReflectSafe},
+		Rules: []*core.Rule{rules.ExportCycle, rules.ExportCache, rules.WrapperTxn, rules.SpareCap, rules.ReflectSafe, rules.HostSlice},
 		Explanation: "Clause decided: 'exporting a script-built object graph preserves sharing and cycles within one export' and, as its safety half, 'no export recursion aborts the host'. R-EXPORTCYCLE enumerates every implementation of objectImpl.export / exportToMap / exportToArrayOrSlice (and the generic helpers); each one that contains a recursion point into the object's own contents (exportValue, X.self.export, toReflectValue) must (a) for the untyped variant look its own object up with ctx.get and recurse only on the miss edge, (b) register its own object with ctx.put/putTyped on every path before each recursion point (dominance); typed variants must only be invoked on the miss edge of ctx.getTyped. Pure pass-through to another object's implementation is recognised as delegation. " +
 			"R-EXPORTCACHE: inside the cache itself an image once recorded is never forgotten - in put/putTyped a freshly made per-type table is stored into ctx.cache[key] only on the miss edge of the lookup or after the previous entry was copied into it. " +
 			"R-WRAPPERTXN ('host values wrapped by ToValue are live views'): overwriting a slot of a reflect-backed struct/array whose wrapper was handed out is detach -> convert -> (drop from cache | re-attach): on the err != nil edge of toReflectValue the detached wrapper is re-attached with setReflectValue, and the cache entry is removed only under err == nil. R-SPARECAP applies the spare-capacity discipline to valueArrayCache (shrink clears what it cuts off; grow re-slices into capacity). " +
-			"R-REFLECTSAFE: script-chosen indexes and field paths never reach the panicking forms of package reflect - no (reflect.Value).FieldByIndex, and every (reflect.Value).Index(i) is compared with a Len() first (locally, at every call site of a helper incl. bound-method thunks, or by constructing the destination with that length).",
+			"R-REFLECTSAFE: script-chosen indexes and field paths never reach the panicking forms of package reflect - no (reflect.Value).FieldByIndex, and every (reflect.Value).Index(i) is compared with a Len() first (locally, at every call site of a helper incl. bound-method thunks, or by constructing the destination with that length). R-HOSTSLICE: every in-place re-slice of a host-owned Go slice behind objectGoSlice / objectGoSliceReflect (grow within capacity, shrink) is preceded by a zeroing loop over the slots it uncovers or cuts off - the capacity of a host slice holds whatever the Go program left there.",
 		Technique:  "get/put-before-recursion dominance over SSA for every implementation of the export interface methods; controlling-condition classification of map updates and of the two outcomes of a fallible conversion",
 		DesignRef:  "DESIGN.md section 4, C13",
 		NotCovered: "round-trip identity ToValue/Export, ExportTo deep equality, live-view aliasing of wrapped structs/maps/slices beyond the overwrite transaction: reflection-driven, value- and history-level",
@@ -277,11 +276,11 @@ var All = []*Prop{
 	},
 	{
 		ID:    "C04",
-		Rules: []*core.Rule{rules.SetOwnGuard, rules.OverrideClosure, rules.LazyOrder, rules.PropCounters, rules.KeyKindAgree, rules.CowNames, rules.ElemCount, rules.TruncAgree, rules.RawResize, rules.KindFlip, rules.LazyNames},
+		Rules: []*core.Rule{rules.SetOwnGuard, rules.OverrideClosure, rules.LazyOrder, rules.PropCounters, rules.KeyKindAgree, rules.CowNames, rules.ElemCount, rules.TruncAgree, rules.RawResize, rules.KindFlip, rules.LazyNames, rules.DescFirst},
 		Explanation: "R-SETOWNGUARD (OrdinarySet belief, sibling contradiction rule): in every function carrying the Receiver of a [[Set]] (a `receiver Value` parameter), each X.self.setOwn{Str,Idx,Sym} call is control-dependent on receiver == X for the same SSA value X. " +
 			"R-OVERRIDECLOSURE: from go/types method sets, for each of the ~50 object kinds and each key kind K, if getOwnProp<K> resolves outside baseObject (the kind answers [[GetOwnProperty]] from custom storage) then get/hasOwnProperty/delete/defineOwnProperty/setOwn/setForeign/hasProperty<K> and the matching enumerators also resolve outside baseObject, or the baseObject version provably only dispatches back through o.val.self to overridden methods, or the (kind, method) pair is an audited table exception. " +
 			"Key-order bookkeeping (index keys are moved to the front lazily): R-LAZYORDER - every read of idxPropCount outside the bookkeeping is dominated by ensurePropOrder()/fixPropOrder() on the same object ('no index keys' shortcuts are only valid on an up-to-date counter); R-PROPCOUNTERS - in _delete each of lastSortedPropLen/idxPropCount is decremented under the comparison of the removed position with that very counter and under no comparison with the smaller one. " +
-			"R-KEYKINDAGREE: (*Object).setStr / setIdx / setSym call the same functions modulo key kind, invoke the same interface methods and read the same fields of the property record. R-COWNAMES: every in-place element write into a slice obtained from baseObject.propNames is control-dependent on !namesMarkedForCopy, or follows a copy-on-write branch (marker tested, fresh array installed), or is in the audited table - an enumeration in progress shares that backing array. R-ELEMCOUNT / R-TRUNCAGREE / R-RAWRESIZE (see C07) decide the array side of 'a non-configurable property cannot be deleted' and 'a non-extensible object gains no keys': the counters that let ArraySetLength skip the search for non-configurable elements are exact, the search covers what the cut removes, and in-place resizes respect extensible / writable length. R-KINDFLIP: in _defineOwnProperty (the one decision table behind defineProperty for every key kind and most object kinds) every descriptor test that controls an assignment of valueProperty.accessor is also consulted by the if-condition that compares the descriptor's kind with existing.accessor (otherwise a descriptor satisfying only that test converts a non-configurable property), and each flip clears the payload of the other kind on the same record. R-LAZYNAMES ('lazily-templated built-ins and global object'): a templatedObject's propNames is nil (= the template's names) until materialisePropNames(); every statically resolved call of a baseObject method that may write propNames, made on the baseObject embedded in a templated object, is preceded on every path by materialisePropNames()/materialiseProps() on the same object or lies behind a test that the key exists; and no baseObject method that tests key presence in `values` by a comma-ok lookup is called on a templated object (which keeps deleted template properties as keys with a nil value).",
+			"R-KEYKINDAGREE: (*Object).setStr / setIdx / setSym call the same functions modulo key kind, invoke the same interface methods and read the same fields of the property record. R-COWNAMES: every in-place element write into a slice obtained from baseObject.propNames is control-dependent on !namesMarkedForCopy, or follows a copy-on-write branch (marker tested, fresh array installed), or is in the audited table - an enumeration in progress shares that backing array. R-ELEMCOUNT / R-TRUNCAGREE / R-RAWRESIZE (see C07) decide the array side of 'a non-configurable property cannot be deleted' and 'a non-extensible object gains no keys': the counters that let ArraySetLength skip the search for non-configurable elements are exact, the search covers what the cut removes, and in-place resizes respect extensible / writable length. R-KINDFLIP: in _defineOwnProperty (the one decision table behind defineProperty for every key kind and most object kinds) every descriptor test that controls an assignment of valueProperty.accessor is also consulted by the if-condition that compares the descriptor's kind with existing.accessor (otherwise a descriptor satisfying only that test converts a non-configurable property), and each flip clears the payload of the other kind on the same record. R-LAZYNAMES ('lazily-templated built-ins and global object'): a templatedObject's propNames is nil (= the template's names) until materialisePropNames(); every statically resolved call of a baseObject method that may write propNames, made on the baseObject embedded in a templated object, is preceded on every path by materialisePropNames()/materialiseProps() on the same object or lies behind a test that the key exists; and no baseObject method that tests key presence in `values` by a comma-ok lookup is called on a templated object (which keeps deleted template properties as keys with a nil value). R-DESCFIRST: in a function that both converts descriptors (toPropertyDescriptor) and defines properties, no conversion is reachable from a definition: ObjectDefineProperties reads all descriptors before it defines the first property, so that a throwing later descriptor leaves the target untouched.",
 		Technique:  "control dependence on a receiver-identity test (SSA); method-set matrix closure over go/types with virtual-dispatch discharge; dominance of a refresh call; controlling-condition sets of counter decrements",
 		DesignRef:  "DESIGN.md section 4, C04",
 		NotCovered: "the decision table of ValidateAndApplyPropertyDescriptor (_defineOwnProperty), the sorting done by fixPropOrder itself, freeze/seal outcomes, ArraySetLength, per-kind exotic semantics: value-level; R-EXTENSIBLE is not armed",
